@@ -171,12 +171,21 @@ package analyzer
 //@   ensures fresh(result) || len(result) == 0
 //@ trusted CollectPayeeTemplates
 //@   ensures fresh(result)
+//@ specfun acJ(j *ast.Journal, k string) int
 //@ trusted CollectAccountCounts
-//@   ensures fresh(result)
+//@   ensures result != nil && fresh(result)
+//@   ensures forall k string :: {result[k]} result[k] == acJ(journal, k)
+//@   ensures forall k string :: {has(result, k)} has(result, k) <==> acJ(journal, k) > 0
+//@ specfun ccJ(j *ast.Journal, k string) int
 //@ trusted CollectCommodityCounts
-//@   ensures fresh(result)
+//@   ensures result != nil && fresh(result)
+//@   ensures forall k string :: {result[k]} result[k] == ccJ(journal, k)
+//@   ensures forall k string :: {has(result, k)} has(result, k) <==> ccJ(journal, k) > 0
+//@ specfun tcJ(j *ast.Journal, k string) int
 //@ trusted CollectTagCounts
-//@   ensures fresh(result)
+//@   ensures result != nil && fresh(result)
+//@   ensures forall k string :: {result[k]} result[k] == tcJ(journal, k)
+//@   ensures forall k string :: {has(result, k)} has(result, k) <==> tcJ(journal, k) > 0
 //@ trusted validateDateTags
 //@   ensures fresh(result) || len(result) == 0
 //@ trusted checkUndeclaredAccounts
@@ -230,6 +239,48 @@ package analyzer
 //@   loop 1 invariant counts != nil && fresh(counts)
 //@   loop 1 invariant forall k string :: {counts[k]} counts[k] >= 0 && (resolved.Primary != nil ==> counts[k] >= pcnt(resolved.Primary.Transactions, len(resolved.Primary.Transactions), k))
 //@   loop 1 invariant forall p string, k string :: {resolved.Files[p]; counts[k]} iterseen[p] ==> counts[k] >= pcnt(resolved.Files[p].Transactions, len(resolved.Files[p].Transactions), k) + ite(resolved.Primary != nil, pcnt(resolved.Primary.Transactions, len(resolved.Primary.Transactions), k), 0)
+//@   closure 1 loop 1 modifies counts[*]
+//@   closure 1 loop 1 invariant counts != nil && counts == old(counts)
+//@   closure 1 loop 1 invariant forall k string :: {counts[k]} counts[k] == old(counts[k]) + ite(iterseen[k], itermap[k], 0)
+//@   closure 1 loop 1 invariant forall k string :: {iterseen[k]} iterseen[k] ==> has(itermap, k)
+//@   closure 1 loop 1 invariant forall k string :: {has(counts, k)} has(counts, k) <==> old(has(counts, k)) || iterseen[k]
+
+// (same shape as the payee counts; the per-file counter is trusted, the merge over the include tree is verified to be
+// an addition per key, hence independent of the iteration order of resolved.Files)
+//@ func collectAccountCountsFromResolved
+//@   props C15 C16
+//@   requires resolved != nil && (forall p string :: {resolved.Files[p]} has(resolved.Files, p) ==> resolved.Files[p] != nil)
+//@   ensures [fresh] result != nil && fresh(result)
+//@   loop 1 modifies counts[*]
+//@   loop 1 invariant counts != nil && fresh(counts)
+//@   closure 1 loop 1 modifies counts[*]
+//@   closure 1 loop 1 invariant counts != nil && counts == old(counts)
+//@   closure 1 loop 1 invariant forall k string :: {counts[k]} counts[k] == old(counts[k]) + ite(iterseen[k], itermap[k], 0)
+//@   closure 1 loop 1 invariant forall k string :: {iterseen[k]} iterseen[k] ==> has(itermap, k)
+//@   closure 1 loop 1 invariant forall k string :: {has(counts, k)} has(counts, k) <==> old(has(counts, k)) || iterseen[k]
+
+// (same shape as the payee counts; the per-file counter is trusted, the merge over the include tree is verified to be
+// an addition per key, hence independent of the iteration order of resolved.Files)
+//@ func collectCommodityCountsFromResolved
+//@   props C15 C16
+//@   requires resolved != nil && (forall p string :: {resolved.Files[p]} has(resolved.Files, p) ==> resolved.Files[p] != nil)
+//@   ensures [fresh] result != nil && fresh(result)
+//@   loop 1 modifies counts[*]
+//@   loop 1 invariant counts != nil && fresh(counts)
+//@   closure 1 loop 1 modifies counts[*]
+//@   closure 1 loop 1 invariant counts != nil && counts == old(counts)
+//@   closure 1 loop 1 invariant forall k string :: {counts[k]} counts[k] == old(counts[k]) + ite(iterseen[k], itermap[k], 0)
+//@   closure 1 loop 1 invariant forall k string :: {iterseen[k]} iterseen[k] ==> has(itermap, k)
+//@   closure 1 loop 1 invariant forall k string :: {has(counts, k)} has(counts, k) <==> old(has(counts, k)) || iterseen[k]
+
+// (same shape as the payee counts; the per-file counter is trusted, the merge over the include tree is verified to be
+// an addition per key, hence independent of the iteration order of resolved.Files)
+//@ func collectTagCountsFromResolved
+//@   props C15 C16
+//@   requires resolved != nil && (forall p string :: {resolved.Files[p]} has(resolved.Files, p) ==> resolved.Files[p] != nil)
+//@   ensures [fresh] result != nil && fresh(result)
+//@   loop 1 modifies counts[*]
+//@   loop 1 invariant counts != nil && fresh(counts)
 //@   closure 1 loop 1 modifies counts[*]
 //@   closure 1 loop 1 invariant counts != nil && counts == old(counts)
 //@   closure 1 loop 1 invariant forall k string :: {counts[k]} counts[k] == old(counts[k]) + ite(iterseen[k], itermap[k], 0)
